@@ -1,8 +1,10 @@
 (* C12 - a cut or header-damaged RecordIO file yields only genuine records, in order.
-   The full alteration statement is false of the code (F-C12a, open finding): the proved part is
-   the class of alterations that keep the varint framing (no probabilistic assumption), and the
-   refutation exhibits the undetected alteration. *)
-From GoSST Require Import Base.Bytes RecordIO.Format RecordIO.SeqReader RecordIO.MmapReader.
+   Header alterations, proved without probabilistic assumption: the alterations that keep the varint
+   framing, and EVERY alteration of a byte of the stored checksum varint (the header parser rejects
+   non-minimal varints, so the accepted encoding of a value is unique).  The reader accepts as a
+   record header only byte strings the writer produces.  The alteration that was accepted before the
+   minimal-encoding check (F-C12a) is rejected now (C12_old_witness_now_rejected). *)
+From GoSST Require Import Base.Bytes Base.Varint Base.Crc RecordIO.Format RecordIO.SeqReader RecordIO.MmapReader.
 From GoSST Require Import Base.CodeFacts.
 From GoSSTGen Require Import FactsCode.
 From GoSST Require Import RecordIO.FormatFacts RecordIO.WriteReadFacts RecordIO.DamageFacts.
@@ -61,14 +63,70 @@ Proof.
 Qed.
 Print Assumptions C12_altered_header_both_readers_partial.
 
-(* the unrestricted statement is false of the code: F-C12a *)
-Theorem C12_header_alteration_refuted :
-  exists usz csz isnil rest j v,
-    usz < 2 ^ 64 /\ csz < 2 ^ 64 /\ (j < length (hdr usz csz isnil))%nat /\ v < 256
-    /\ v <> nth j (hdr usz csz isnil) 0
-    /\ exists r, parse_hdr (alter (hdr usz csz isnil) j v ++ rest) = Ok r.
-Proof. exact header_alteration_refuted. Qed.
-Print Assumptions C12_header_alteration_refuted.
+(* the reader accepts as a record header only what the writer writes (for the same field values) *)
+Theorem C12_parse_hdr_accepts_only_written_headers :
+  forall l usz csz isnil n,
+  parse_hdr l = Ok (usz, csz, isnil, n) ->
+  Forall (fun b => b < 256) (firstn (N.to_nat n) l) ->
+  let nb := nth 3 l 0 in
+  let pre := uv_enc magic ++ [nb] ++ uv_enc usz ++ uv_enc csz in
+  firstn (N.to_nat n) l = pre ++ uv_enc (crc32c pre)
+  /\ n = lenN (pre ++ uv_enc (crc32c pre))
+  /\ isnil = (nb =? 1)
+  /\ (nb <= 1 -> firstn (N.to_nat n) l = hdr usz csz isnil /\ n = lenN (hdr usz csz isnil)).
+Proof. exact parse_hdr_accepts_only_written_headers. Qed.
+Print Assumptions C12_parse_hdr_accepts_only_written_headers.
+
+Theorem C12_parse_hdr_accepted_is_hdr :
+  forall l usz csz isnil n,
+  Forall (fun b => b < 256) l -> nth 3 l 0 <= 1 ->
+  parse_hdr l = Ok (usz, csz, isnil, n) ->
+  exists rest, l = hdr usz csz isnil ++ rest /\ n = lenN (hdr usz csz isnil).
+Proof. exact parse_hdr_accepted_is_hdr. Qed.
+Print Assumptions C12_parse_hdr_accepted_is_hdr.
+
+(* every alteration of a byte of the stored checksum varint is detected, whatever follows the header *)
+Theorem C12_checksum_bytes_alteration_detected :
+  forall usz csz isnil rest j v,
+  usz < 2 ^ 64 -> csz < 2 ^ 64 ->
+  (length (hdr_prefix usz csz isnil) <= j < length (hdr usz csz isnil))%nat ->
+  v < 256 -> v <> nth j (hdr usz csz isnil) 0 ->
+  exists e, parse_hdr (alter (hdr usz csz isnil ++ rest) j v) = Err e.
+Proof. exact checksum_bytes_alteration_detected. Qed.
+Print Assumptions C12_checksum_bytes_alteration_detected.
+
+(* framing-preserving alterations and checksum-byte alterations together, parser and both readers *)
+Theorem C12_header_byte_alteration_detected_ext :
+  forall usz csz isnil rest j v,
+  usz < 2 ^ 64 -> csz < 2 ^ 64 ->
+  (j < length (hdr usz csz isnil))%nat -> v < 256 ->
+  v <> nth j (hdr usz csz isnil) 0 ->
+  (j = 3%nat \/ same_framing (nth j (hdr usz csz isnil) 0) v
+   \/ (length (hdr_prefix usz csz isnil) <= j)%nat) ->
+  exists e, parse_hdr (alter (hdr usz csz isnil) j v ++ rest) = Err e.
+Proof. exact header_byte_alteration_detected_ext. Qed.
+Print Assumptions C12_header_byte_alteration_detected_ext.
+
+Theorem C12_altered_header_both_readers_ext :
+  forall (c : codec) pre usz csz isnil tail j v,
+  usz < 2 ^ 64 -> csz < 2 ^ 64 ->
+  (j < length (hdr usz csz isnil))%nat -> v < 256 ->
+  v <> nth j (hdr usz csz isnil) 0 ->
+  (j = 3%nat \/ same_framing (nth j (hdr usz csz isnil) 0) v
+   \/ (length (hdr_prefix usz csz isnil) <= j)%nat) ->
+  (exists e, fst (read_next c (pre ++ alter (hdr usz csz isnil) j v ++ tail) (lenN pre)) = Err e)
+  /\ (exists e, read_at c (pre ++ alter (hdr usz csz isnil) j v ++ tail) (lenN pre) = Err e).
+Proof.
+  intros; split; [exact (altered_header_read_next_ext c pre usz csz isnil tail j v ltac:(assumption) ltac:(assumption) ltac:(assumption) ltac:(assumption) ltac:(assumption) ltac:(assumption))
+                 |exact (altered_header_read_at_ext c pre usz csz isnil tail j v ltac:(assumption) ltac:(assumption) ltac:(assumption) ltac:(assumption) ltac:(assumption) ltac:(assumption))].
+Qed.
+Print Assumptions C12_altered_header_both_readers_ext.
+
+(* the alteration that was accepted before the minimal-encoding check (F-C12a) is rejected *)
+Theorem C12_old_witness_now_rejected :
+  parse_hdr (alter (hdr 6 0 false) 10 0x85 ++ [0; 1; 2; 3; 4; 5]) = Err HeaderChecksum.
+Proof. exact old_witness_now_rejected. Qed.
+Print Assumptions C12_old_witness_now_rejected.
 
 Theorem C12_file_header_rejected :
   forall (f : bytes),
